@@ -7,6 +7,7 @@ mod algo;
 mod c15;
 mod exec;
 mod hnsw;
+mod lex;
 mod lpg;
 mod ops;
 mod pers;
@@ -52,6 +53,7 @@ fn main() {
                 "sess" => sess::generate(seed, cases, &mut out),
                 "algo" => algo::generate(seed, cases, &mut out),
                 "pers" => pers::generate(seed, cases, &mut out),
+                "lex" => lex::generate(seed, cases, &mut out),
                 "hnsw" => hnsw::generate(seed, cases, &mut out),
                 "wal" => wal::generate(seed, cases, args.iter().any(|a| a == "--thorough"), &mut out),
                 _ => {
@@ -99,6 +101,7 @@ fn main() {
                     Some("lpg") => lpg::run(&mut lpgst, &toks[1..]),
                     Some("sess") => sess::run(&mut sessst, &toks[1..]),
                     Some("algo") => algo::run(&toks[1..]),
+                    Some("lex") => lex::run(&toks[1..]),
                     Some("pers") => pers::run(&mut persst, &toks[1..]),
                     Some("hnsw") => hnsw::run(&toks[1..]),
                     _ => "bad-op".to_string(),
